@@ -16,6 +16,12 @@ Correspondence
       a raw `ioprio_get` syscall, `os.sched_getaffinity`, `resource.prlimit`; a sibling child
       must stay unchanged. The Lean model runs on the initial state captured from the OS, so
       this validates the simulated kernel (and the C packing) against this kernel.
+  (c) who is calling (round 5): in (a) `os.getpid()` as the snapshot's modules see it answers the pid of the simulated
+      caller (of the creator while a Process object is made), the module's import-time pid is this harness process's, and
+      the caller-addressed primitives (os.getpriority/setpriority/nice, os.sched_*affinity, resource.getrlimit/setrlimit,
+      `who = 0`) are recorders over the same simulated kernel: family `caller` assigns the roles importer / creator /
+      caller to the processes of the world in every way; in (b) `live-fork` lets a fresh interpreter import psutil and
+      fork, and the child makes the calls on its parent, itself and a third process.
 """
 import ast
 import ctypes
@@ -45,12 +51,13 @@ TRUSTED = [
     "C18 oneshot block: the status file is cached when the harness's warm-up first reads it (num_threads), so the model is told the mask at block entry",
     "C18 Python object protocol: hash/equality of an IntEnum member or bool are those of the int (set membership in ionice_set), the `i` / PyLong_AsLong / PyLong_AsLongLong conversions accept every int subclass, an iterator is always truthy and has no len(); exercised with real objects in both parts, transcribed in Model §6",
     "C18 vanished process: in the simulated part the Process object is made while /proc/<pid> exists, then the directory is removed and the recorders answer ESRCH; zombie: /proc/<pid>/stat shows state Z (simulated) / a real exited, unreaped child (live); a zombie's I/O context is gone, so its I/O priority is only read in the live part",
+    "C18 who is calling: `who = 0` / os.nice / resource.getrlimit / resource.setrlimit act on the calling process (setrlimit(2) is prlimit64(0, ...)); after fork() the child's os.getpid() differs from every pid the program remembered before; in the simulated part os.getpid() is answered by the harness for the modules of the snapshot package that reach it through their global `os` (a module that bound `getpid` by `from os import getpid` would see the real pid), the import-time pid is the harness process's; in the live part (live-fork) a fresh interpreter imports the snapshot and forks, the harness reads /proc-independent kernel state (getpriority, ioprio_get, sched_getaffinity, prlimit) of parent, child and a third process after every call",
     "C18 /proc/<pid>/status: `Cpus_allowed_list` is the task's current mask printed as a range list (%*pbl); the harness renderer is checked against the live kernel on every run",
 ]
 MANIFEST = {
-    "level_text": "Machine-checked Lean 4 proofs over a layered model: simulated kernel (rules + the EPERM/EACCES permission tests of setpriority(2), ioprio_set(2), sched_setaffinity(2), prlimit(2); sched_getaffinity(2) refusing a mask shorter than nr_cpu_ids), native layer (translator's IOPRIO_CLASS_SHIFT; errno protocol of the three getters; the return-value tests of the three setters; the sizing loop of the affinity getter), _pslinux.Process under wrap_exceptions, psutil.Process, and the arguments as Python objects. EVERY property theorem is stated for stepPy - the call as the caller writes it, in an execution context (entry errno, status file cached by oneshot()) - which is what the driver runs against the real code (stepPy cfg, cfg built from the translator's facts); the theorems quantify over every configuration that is Good and has the EINVAL->ValueError fall-through, and cfg_good / cfg_einval_is_valueError are the obligations that the current source is one (the superseded layer `step` of rounds 1-2 is a proof layer in Proofs/C18Step.lean, nothing is claimed about it). C18_refines_py: for every kernel state, existing process, context and request, whatever the specification promises to this caller (expectPy: written from the statement and the man pages; nothing is promised where the caller lacks the privilege) the call yields exactly that result and that kernel (all per-process states + effect log); C18_refines_code_py is the instance for the code as it is, outside the region of the known finding C18-huge-cpu-overflowerror. Named clauses, all for stepPy: C18_py_get_nice/_ionice/_affinity/_rlimit (get returns the kernel's value, every entry errno, nice -1 included, kernels with up to 1024 possible CPU ids through the sizing loop); C18_py_set_then_get_nice/_ionice/_affinity/_rlimit (every valid value the caller is permitted to set, every argument form: success, exactly that attribute replaced, exactly one effect logged, get in any context returns it); C18_py_others_unchanged and C18_exception_no_effect (frame; EVERY raising call leaves the kernel exactly as it was); C18_py_invalid_ValueError_no_effect (level outside 0-7 for EVERY class, level for idle/none, level without class, limits not a pair: ValueError, nothing changes, for every caller); C18_py_empty_selects_all_eligible. CPU lists naming only unusable CPUs: C18_invalid_cpus_Full is the statement for ANY ints; it is refuted for the source as found (C18_invalid_cpus_counterexample: cpu_affinity([2**63]) raises OverflowError - known finding C18-huge-cpu-overflowerror, PENDING fixes/C18-affinity-overflow-valueerror.diff), proved for every list of C longs (C18_py_invalid_cpus_partial) and for the repaired source (C18_invalid_cpus_repaired; fact affinityOverflowRaisesValueError); C18_huge_cpu_raises: in the region nothing changes. Privileges: C18_py_nice_refused (foreign process -> EPERM, lowering beyond RLIMIT_NICE -> EACCES: AccessDenied, kernel unchanged) and C18_unchecked_setter_counterexample (with the return-value test dropped from psutil_posix_setpriority the refused call returns None while the kernel keeps the old value; facts setpriorityChecksRetval / ioprioSetChecksRetval / affinitySetChecksRetval feed cfg_good). Sizing loop: C18_affinity_get_sizing_loop (200 CPU ids: two EINVAL rounds then the mask; errno test flipped -> OSError(EINVAL); mask never grows -> no return; success read from errno -> stale EINVAL), facts affinityGetInitBits / affinityGetRetryTest / affinityGetGrowth / affinityGetErrTest feed cfg_good. Counterexamples for the superseded / seeded shapes: C18_stale_errno_counterexample (three broken errno protocols, seeded C18-1), C18_einval_fallthrough_needed (before aebc260; stale status file inside oneshot()), C18_empty_request_shape_counterexamples (empty list resolved through the status file; range(len(per_cpu_times())) with an offline CPU / virtualised /proc/stat, seeded C18-2), C18_empty_selects_all_eligible_with_holes. Arguments as Python objects: C18_arg_form_irrelevant, C18_same_values_same_effect, C18_cpu_iterator; characterisations outside the statement: C18_empty_iterator_is_refused, C18_limits_iterator_TypeError; C18_gone_process, C18_rlimit_pid0_refused, C18_pid0_is_the_caller. Tied to the code by 40 translator facts (total extractors, extracted independently) feeding cfg_good, by an exhaustive differential run against a simulated kernel over a fake procfs in randomised call modes, and by live runs through the freshly built extension: a spawned child as root (state read back from the OS after every call), a real zombie, a /proc/stat with a missing cpuN line, a forked copy of the harness that drops to an unprivileged uid and calls on itself and on root's child (EPERM/EACCES must reach the caller; a set form that returns must show its value in the kernel), and a fresh interpreter under an LD_PRELOAD shim whose sched_getaffinity refuses masks shorter than a pretended nr_cpu_ids of 64..1024 (the growth branch of the sizing loop runs 0-4 rounds).",
+    "level_text": "Machine-checked Lean 4 proofs over a layered model: simulated kernel (rules + the EPERM/EACCES permission tests of setpriority(2), ioprio_set(2), sched_setaffinity(2), prlimit(2); sched_getaffinity(2) refusing a mask shorter than nr_cpu_ids), native layer (translator's IOPRIO_CLASS_SHIFT; errno protocol of the three getters; the return-value tests of the three setters; the sizing loop of the affinity getter), _pslinux.Process under wrap_exceptions, psutil.Process, and the arguments as Python objects. EVERY property theorem is stated for stepPy - the call as the caller writes it, in an execution context (entry errno, status file cached by oneshot()) - which is what the driver runs against the real code (stepPy cfg, cfg built from the translator's facts); the theorems quantify over every configuration that is Good and has the EINVAL->ValueError fall-through, and cfg_good / cfg_einval_is_valueError are the obligations that the current source is one (the superseded layer `step` of rounds 1-2 is a proof layer in Proofs/C18Step.lean, nothing is claimed about it). C18_refines_py: for every kernel state, existing process, context and request, whatever the specification promises to this caller (expectPy: written from the statement and the man pages; nothing is promised where the caller lacks the privilege) the call yields exactly that result and that kernel (all per-process states + effect log); C18_refines_code_py is the instance for the code as it is, outside the region of the known finding C18-huge-cpu-overflowerror. Named clauses, all for stepPy: C18_py_get_nice/_ionice/_affinity/_rlimit (get returns the kernel's value, every entry errno, nice -1 included, kernels with up to 1024 possible CPU ids through the sizing loop); C18_py_set_then_get_nice/_ionice/_affinity/_rlimit (every valid value the caller is permitted to set, every argument form: success, exactly that attribute replaced, exactly one effect logged, get in any context returns it); C18_py_others_unchanged and C18_exception_no_effect (frame; EVERY raising call leaves the kernel exactly as it was); C18_py_invalid_ValueError_no_effect (level outside 0-7 for EVERY class, level for idle/none, level without class, limits not a pair: ValueError, nothing changes, for every caller); C18_py_empty_selects_all_eligible. CPU lists naming only unusable CPUs: C18_invalid_cpus_Full is the statement for ANY ints; it is refuted for the source as found (C18_invalid_cpus_counterexample: cpu_affinity([2**63]) raises OverflowError - known finding C18-huge-cpu-overflowerror, PENDING fixes/C18-affinity-overflow-valueerror.diff), proved for every list of C longs (C18_py_invalid_cpus_partial) and for the repaired source (C18_invalid_cpus_repaired; fact affinityOverflowRaisesValueError); C18_huge_cpu_raises: in the region nothing changes. Privileges: C18_py_nice_refused (foreign process -> EPERM, lowering beyond RLIMIT_NICE -> EACCES: AccessDenied, kernel unchanged) and C18_unchecked_setter_counterexample (with the return-value test dropped from psutil_posix_setpriority the refused call returns None while the kernel keeps the old value; facts setpriorityChecksRetval / ioprioSetChecksRetval / affinitySetChecksRetval feed cfg_good). Sizing loop: C18_affinity_get_sizing_loop (200 CPU ids: two EINVAL rounds then the mask; errno test flipped -> OSError(EINVAL); mask never grows -> no return; success read from errno -> stale EINVAL), facts affinityGetInitBits / affinityGetRetryTest / affinityGetGrowth / affinityGetErrTest feed cfg_good. Counterexamples for the superseded / seeded shapes: C18_stale_errno_counterexample (three broken errno protocols, seeded C18-1), C18_einval_fallthrough_needed (before aebc260; stale status file inside oneshot()), C18_empty_request_shape_counterexamples (empty list resolved through the status file; range(len(per_cpu_times())) with an offline CPU / virtualised /proc/stat, seeded C18-2), C18_empty_selects_all_eligible_with_holes. Arguments as Python objects: C18_arg_form_irrelevant, C18_same_values_same_effect, C18_cpu_iterator; characterisations outside the statement: C18_empty_iterator_is_refused, C18_limits_iterator_TypeError; C18_gone_process, C18_rlimit_pid0_refused, C18_pid0_is_the_caller. Who is calling (round 5, seeded C18-5): stepPyW c rt og (Model/C18Who.lean) is stepPy with every system call addressed as the translator's routing facts addr* say (self.pid | the caller when self.pid == os.getpid() evaluated in the call / remembered on the object / remembered at import | always the caller), made by process k.self of a program whose module was imported by og.importPid and whose object was made by og.createPid; it is what the driver runs (stepPyW cfg routing). cfg_routing_direct is the obligation that every form hands self.pid to every process primitive it calls; C18_any_caller_refines / _code: the refinement for EVERY caller and EVERY fork history; C18_set_reaches_exactly_that_process: no process other than the target - in particular not the caller, not the importing process - changes, and a promised rlimit set shows in the target's kernel state; C18_remembered_pid_shortcut_counterexample: forked child 9 of importer 7 sets its parent's RLIMIT_NOFILE through a short cut keyed on the import-time pid -> the child's limits change, the parent's do not (and the relatives: pid remembered on the object, unconditional caller primitive), invisible in the importing process; C18_caller_shortcut_sound: a short cut keyed on os.getpid() evaluated in the call (or on a remembered pid while no fork lies in between) is sound. Tied to the code by 38 translator facts (total extractors, extracted independently) feeding cfg_good, by an exhaustive differential run against a simulated kernel over a fake procfs in randomised call modes, and by live runs through the freshly built extension: a spawned child as root (state read back from the OS after every call), a real zombie, a /proc/stat with a missing cpuN line, a forked copy of the harness that drops to an unprivileged uid and calls on itself and on root's child (EPERM/EACCES must reach the caller; a set form that returns must show its value in the kernel), and a fresh interpreter under an LD_PRELOAD shim whose sched_getaffinity refuses masks shorter than a pretended nr_cpu_ids of 64..1024 (the growth branch of the sizing loop runs 0-4 rounds).",
     "level_note": "Trusted: Lean kernel + {propext, Classical.choice, Quot.sound}; translator; correspondence harness; the simulated kernel's rules and permission tests (validated live on this kernel only; ioprio class masking is that of Linux >= 6.x); a cpuset is given as cpuset-and-online (the simulated sched_setaffinity intersects with it); /proc/stat shows at most ncpu cpuN lines; ncpu (= nr_cpu_ids) <= 1024; the sim part replaces the 7 native entry points by recorders (C edits are seen by the translator and the live parts only); single-threaded targets; PID reuse guard is C01's. Open finding: C18-huge-cpu-overflowerror (PENDING fix).",
-    "technique": "Lean 4 refinement proof by case analysis over requests + bridge lemma (permitted caller, good configuration: complete system calls / errno protocol / failure tests / sizing loop collapse to the proof layer) + bit-arithmetic lemmas + translator-fed proof obligations + exhaustive differential correspondence (simulated kernel) in randomised call modes + live differential runs (root child with poisoned errno, zombie, holed /proc/stat, unprivileged forked caller, LD_PRELOAD shim forcing EINVAL in the affinity getter)",
+    "technique": "Lean 4 refinement proof by case analysis over requests + bridge lemma (permitted caller, good configuration: complete system calls / errno protocol / failure tests / sizing loop collapse to the proof layer) + bit-arithmetic lemmas + translator-fed proof obligations + exhaustive differential correspondence (simulated kernel) in randomised call modes + live differential runs (root child with poisoned errno, zombie, holed /proc/stat, unprivileged forked caller, LD_PRELOAD shim forcing EINVAL in the affinity getter, a fresh interpreter that imports psutil and forks: the child calls on its parent / itself / a third process) + caller-identity dimension in the simulated part (os.getpid() and the caller-addressed primitives simulated; every assignment of importer / creator / caller roles)",
     "design_ref": "DESIGN.md §5 C18",
 }
 ASSUMPTIONS = [
@@ -58,6 +65,7 @@ ASSUMPTIONS = [
     "the process exists for the whole call and PID != 0 (Process(0) does not exist on Linux; rlimit's PID-0 refusal is modelled and checked)",
     "possible CPU ids are 0..ncpu-1 with ncpu <= 1024 (CPU_SETSIZE of the fixed cpu_set_t in proc.c); which of them are online / in the cpuset is arbitrary; /proc/stat has at most ncpu cpuN lines (one per online CPU, or fewer when virtualised)",
     "arguments are int-like scalars (int, IntEnum member, bool) and list / tuple / set / range / iterator containers of ints; floats, strings, numpy arrays, a bare int where a sequence is expected are not modelled",
+    "who is calling: one calling thread; the pids a program can have remembered are the importing process's and the object creator's (Origin); pid namespaces (a pid that means different processes to caller and target) and a pid remembered at other moments (first call, a cache filled before a fork) are not modelled - the behavioural families still make every call from a process whose os.getpid() differs from the import-time one",
     "the kernel implements prlimit(2) (Linux >= 2.6.36): the ENOSYS branch of _pslinux.Process.rlimit (zombie disambiguation) is never entered by the simulated kernel",
 ]
 
@@ -165,6 +173,8 @@ def _rlimit_facts(tree):
     for n in ast.walk(fn):
         if isinstance(n, ast.If) and isinstance(n.test, ast.Compare) and len(n.test.ops) == 1:
             l = n.test.left
+            if not isinstance(n.test.comparators[0], ast.Constant):
+                continue                                   # e.g. `self.pid == <a remembered pid>`: the routing facts' matter
             if extract.dotted(l) == "self.pid" and isinstance(n.test.ops[0], ast.Eq) \
                     and extract.const(n.test.comparators[0]) == 0 and _raises(n, "ValueError") and n.lineno < first_any:
                 pid0 = True
@@ -481,6 +491,160 @@ def _aff_loop(src):
     return init, retry, grow
 
 
+# ---- which process does each form address? (Model/C18Who.lean: `Routing`) -----------------------------------------
+#
+# Every call of a primitive that acts on a process — the extension's entry points, `resource.prlimit`, and the ones that
+# act on the CALLER (`who = 0`, or no pid argument at all: os.nice, resource.getrlimit/setrlimit) — in the front-end method
+# and in the `_pslinux.Process` methods of each attribute, with its pid argument and the `self.pid == …` tests guarding it.
+# Address codes (Addr.ofCode): 0 = self.pid; 1/2/3 = the caller when self.pid == os.getpid() evaluated in the call /
+# remembered on the object / remembered in a module global; 4 = always the caller. Anything else is NotRecognised.
+
+_PRIMS = {
+    # attr: (group, "get"|"set"|None (by argument count), index of the pid argument or None = implicit caller)
+    "getpriority": ("nice", "get", 0), "setpriority": ("nice", "set", 0), "nice": ("nice", "set", None),
+    "proc_ioprio_get": ("ionice", "get", 0), "proc_ioprio_set": ("ionice", "set", 0),
+    "ioprio_get": ("ionice", "get", 0), "ioprio_set": ("ionice", "set", 0),
+    "proc_cpu_affinity_get": ("aff", "get", 0), "proc_cpu_affinity_set": ("aff", "set", 0),
+    "sched_getaffinity": ("aff", "get", 0), "sched_setaffinity": ("aff", "set", 0),
+    "prlimit": ("rlimit", None, 0), "getrlimit": ("rlimit", "get", None), "setrlimit": ("rlimit", "set", None),
+}
+_FORM_FUNCS = {"nice": ("nice", ("nice_get", "nice_set")), "ionice": ("ionice", ("ionice_get", "ionice_set")),
+               "aff": ("cpu_affinity", ("cpu_affinity_get", "cpu_affinity_set")), "rlimit": ("rlimit", ("rlimit",))}
+_ROUTE_FACTS = (("addrNiceGet", "nice", "get"), ("addrNiceSet", "nice", "set"), ("addrIoniceGet", "ionice", "get"),
+                ("addrIoniceSet", "ionice", "set"), ("addrAffinityGet", "aff", "get"), ("addrAffinitySet", "aff", "set"),
+                ("addrRlimitGet", "rlimit", "get"), ("addrRlimitSet", "rlimit", "set"))
+
+
+def _has_getpid(node):
+    return any(isinstance(n, ast.Call) and extract.dotted(n.func).split(".")[-1] == "getpid" for n in ast.walk(node))
+
+
+def _pid_source(expr, trees):
+    """Where the pid `self.pid` is compared with comes from: 1 = os.getpid() now, 2 = an attribute of the object,
+    3 = a module global; both of the latter must have been assigned from os.getpid()."""
+    if isinstance(expr, ast.Call) and extract.dotted(expr.func).split(".")[-1] == "getpid":
+        return 1
+    d = extract.dotted(expr)
+    if isinstance(expr, ast.Name):
+        for t in trees:
+            for st in t.body:
+                if isinstance(st, (ast.Assign, ast.AnnAssign)) and st.value is not None and _has_getpid(st.value) and \
+                        any(isinstance(x, ast.Name) and x.id == d for x in ast.walk(st)
+                            if isinstance(getattr(x, "ctx", None), ast.Store)):
+                    return 3
+        raise NotRecognised("self.pid compared with %s, which is not a module global set from os.getpid()" % d)
+    if d.startswith("self."):
+        for t in trees:
+            for n in ast.walk(t):
+                if isinstance(n, ast.Assign) and _has_getpid(n.value) and any(extract.dotted(x) in (d, d.replace("self._proc.", "self."))
+                                                                             for x in n.targets):
+                    return 2
+        raise NotRecognised("self.pid compared with %s, which is not set from os.getpid()" % d)
+    raise NotRecognised("self.pid compared with %s" % ast.dump(expr)[:80])
+
+
+def _pid_test(test, trees):
+    """(source code, polarity) when `test` is `self.pid == E` / `E == self.pid` / `!=`; None otherwise."""
+    if isinstance(test, ast.UnaryOp) and isinstance(test.op, ast.Not):
+        r = _pid_test(test.operand, trees)
+        return None if r is None else (r[0], not r[1])
+    if isinstance(test, ast.Compare) and len(test.ops) == 1 and isinstance(test.ops[0], (ast.Eq, ast.NotEq, ast.Is, ast.IsNot)):
+        a, b = test.left, test.comparators[0]
+        if extract.dotted(b) == "self.pid":
+            a, b = b, a
+        if extract.dotted(a) == "self.pid" and not (isinstance(b, ast.Constant)):
+            return _pid_source(b, trees), isinstance(test.ops[0], (ast.Eq, ast.Is))
+    return None
+
+
+def _routing(linux_tree, init_tree):
+    """{(group, 'get'|'set'): address code}; raises NotRecognised for a shape that has no honest code."""
+    trees = (linux_tree, init_tree)
+    found = {}
+
+    def target(arg, fn, guards):
+        """[(kind 'pid'|'caller', guards)] for the pid argument expression `arg`."""
+        if arg is None:
+            return [("caller", guards)]
+        if extract.dotted(arg) == "self.pid":
+            return [("pid", guards)]
+        if isinstance(arg, ast.Constant) and arg.value == 0 and arg.value is not False:
+            return [("caller", guards)]
+        if isinstance(arg, ast.IfExp):
+            t = _pid_test(arg.test, trees)
+            if t is None:
+                raise NotRecognised("pid argument chosen by %s" % ast.dump(arg.test)[:80])
+            return target(arg.body, fn, guards + [t]) + target(arg.orelse, fn, guards + [(t[0], not t[1])])
+        if isinstance(arg, ast.Name):
+            vals = [st.value for st in ast.walk(fn) if isinstance(st, ast.Assign)
+                    and any(isinstance(x, ast.Name) and x.id == arg.id for x in st.targets)]
+            if len(vals) == 1:
+                return target(vals[0], fn, guards)
+        raise NotRecognised("pid argument %s of a process primitive in %s" % (ast.dump(arg)[:80], fn.name))
+
+    def visit(node, fn, group, guards):
+        if isinstance(node, ast.If):
+            t = _pid_test(node.test, trees)
+            visit(node.test, fn, group, guards)
+            for st in node.body:
+                visit(st, fn, group, guards + ([t] if t else []))
+            for st in node.orelse:
+                visit(st, fn, group, guards + ([(t[0], not t[1])] if t else []))
+            return
+        if isinstance(node, ast.Call) and isinstance(node.func, ast.Attribute) and node.func.attr in _PRIMS \
+                and extract.dotted(node.func.value) not in ("self", "self._proc", "proc", "p"):
+            g, kind, idx = _PRIMS[node.func.attr]
+            base = extract.dotted(node.func.value)
+            if base == "os" and node.func.attr in ("getpriority", "setpriority"):
+                idx = 1                                        # os.getpriority(which, who)
+            if kind is None:
+                kind = "get" if len(node.args) + len(node.keywords) <= 2 else "set"
+            arg = None
+            if idx is not None:
+                if len(node.args) <= idx:
+                    raise NotRecognised("%s.%s called without a positional pid" % (base, node.func.attr))
+                arg = node.args[idx]
+            for tg in target(arg, fn, list(guards)):
+                found.setdefault((g, kind), []).append(tg)
+        for ch in ast.iter_child_nodes(node):
+            visit(ch, fn, group, guards)
+
+    front = _methods(init_tree, "Process")
+    plat = _methods(linux_tree, "Process")
+    for group, (fname, pnames) in _FORM_FUNCS.items():
+        for fn in [front.get(fname)] + [plat.get(n) for n in pnames]:
+            if fn is None:
+                raise NotRecognised("method for %s not found" % group)
+            for st in fn.body:
+                visit(st, fn, group, [])
+    out = {}
+    for _, group, kind in _ROUTE_FACTS:
+        uses = found.get((group, kind))
+        if not uses:
+            out[(group, kind)] = NotRecognised("no process primitive found for %s %s" % (group, kind))
+            continue
+        shapes = set((t, tuple(sorted(set(g)))) for t, g in uses)
+        if shapes == {("pid", ())}:
+            out[(group, kind)] = 0
+        elif shapes == {("caller", ())}:
+            out[(group, kind)] = 4
+        else:
+            srcs = set(s for _, g in shapes for s, _ in g)
+            if len(srcs) == 1 and shapes == {("caller", ((list(srcs)[0], True),)), ("pid", ((list(srcs)[0], False),))}:
+                out[(group, kind)] = list(srcs)[0]
+            else:
+                # no honest code (e.g. a caller primitive tried first and the pid call as a fall-back): this form only
+                out[(group, kind)] = NotRecognised("addressing of %s %s: %r" % (group, kind, sorted(shapes)))
+    return out
+
+
+def _route_code(rt, group, kind):
+    v = rt[(group, kind)]
+    if isinstance(v, Exception):
+        raise v
+    return v
+
+
 def facts(snap, F):
     cache = {}
 
@@ -577,6 +741,12 @@ def facts(snap, F):
     F.try_add("affinityGetGrowth", "Nat × Nat",
               lambda: "(%s, %s)" % tuple(extract.lean_nat(x) for x in loop()[2]),
               "(mul, add): the next mask has `ncpus * mul + add` CPUs; (2, 0) = doubling, (1, 0) = the mask never grows")
+    rt = lambda: get("rt", lambda: _routing(linux(), init()))  # noqa: E731
+    for name, group, kind in _ROUTE_FACTS:
+        F.try_add(name, "Nat", (lambda g=group, k=kind: extract.lean_nat(_route_code(rt(), g, k))),
+                  "which process the %s form of %s addresses: 0 = every process primitive it calls receives self.pid; 1 / 2 / 3 = a "
+                  "primitive acting on the CALLER when self.pid == os.getpid() evaluated in the call / remembered on the object / "
+                  "remembered in a module global (else self.pid); 4 = always the caller" % (kind, group))
 
 
 # ------------------------------------------------------------------------------ simulated kernel
@@ -736,6 +906,42 @@ class Sim:
         self.log.append(["rlimit", p, res, s, h])
         return old and (old[0] - U64 if old[0] >= 2**63 else old[0], old[1] - U64 if old[1] >= 2**63 else old[1])
 
+    # ---- the same attributes through the primitives that act on the CALLING process or take `who` in another
+    # position (os.getpriority/setpriority/nice, os.sched_*affinity, resource.getrlimit/setrlimit): the code as it is
+    # calls none of them; a change that does must meet the same kernel (seeded C18-5: setrlimit() "when the target is me")
+    def os_getpriority(self, which, who):
+        if _c_int(which) != 0:
+            raise _oserr(OSError, errno.EINVAL)
+        return self.getpriority(who)
+
+    def os_setpriority(self, which, who, prio):
+        if _c_int(which) != 0:
+            raise _oserr(OSError, errno.EINVAL)
+        return self.setpriority(who, prio)
+
+    def os_nice(self, incr):
+        _, st = self._task(0)
+        self.setpriority(0, st["nice"] + _c_int(incr))
+        return st["nice"]
+
+    def os_sched_getaffinity(self, pid):
+        return set(self.proc_cpu_affinity_get(pid))
+
+    def os_sched_setaffinity(self, pid, mask):
+        cpus = [_c_long(c) for c in mask]
+        if any(c < 0 for c in cpus):
+            raise ValueError("negative CPU number")
+        return self.proc_cpu_affinity_set(pid, [c for c in cpus if c < 1024])
+
+    def getrlimit(self, res):
+        return self.prlimit(0, res)
+
+    def setrlimit(self, res, limits):
+        try:
+            self.prlimit(0, res, limits)
+        except PermissionError:
+            raise ValueError("not allowed to raise maximum limit") from None
+
     def dump(self):
         return [{"pid": p, "nice": st["nice"], "ioprio": st["ioprio"], "affinity": list(st["affinity"]),
                  "cpuset": list(st["cpuset"]), "rlimits": [list(x) for x in st["rlimits"]]}
@@ -743,9 +949,24 @@ class Sim:
 
 
 class _ResourceProxy:
-    def __init__(self, real, prlimit):
+    def __init__(self, real, prlimit, getrlimit=None, setrlimit=None):
         self._real = real
         self.prlimit = prlimit
+        if getrlimit is not None:
+            self.getrlimit = getrlimit
+            self.setrlimit = setrlimit
+
+    def __getattr__(self, n):
+        return getattr(self._real, n)
+
+
+class _OsProxy:
+    """The `os` module as the snapshot's modules see it in the simulated part: everything is the real module except the
+    identity of the calling process (`getpid`) and the primitives that act on a process's niceness / affinity."""
+
+    def __init__(self, real, overrides):
+        self._real = real
+        self.__dict__.update(overrides)
 
     def __getattr__(self, n):
         return getattr(self._real, n)
@@ -1001,7 +1222,20 @@ class SimImpl:
                 self.saved.append((mod, n, getattr(mod, n)))
                 setattr(mod, n, self._fwd(n))
         self.saved.append((self.pl, "resource", self.pl.resource))
-        self.pl.resource = _ResourceProxy(self.pl.resource, self._fwd("prlimit"))
+        self.pl.resource = _ResourceProxy(self.pl.resource, self._fwd("prlimit"), self._fwd("getrlimit"), self._fwd("setrlimit"))
+        # who is calling: os.getpid() answers the pid of the simulated caller (at object creation: of the process that
+        # creates the object); the module itself was imported by THIS process (os.getpid() of the harness), which
+        # is what a pid remembered at import time holds
+        self.getpid_value = os.getpid()
+        self.os_proxy = _OsProxy(os, {"getpid": lambda: self.getpid_value,
+                                      "getpriority": self._fwd("os_getpriority"), "setpriority": self._fwd("os_setpriority"),
+                                      "nice": self._fwd("os_nice"), "sched_getaffinity": self._fwd("os_sched_getaffinity"),
+                                      "sched_setaffinity": self._fwd("os_sched_setaffinity")})
+        pkg = self.ps.__name__
+        for name, mod in sorted(sys.modules.items()):
+            if mod is not None and (name == pkg or name.startswith(pkg + ".")) and getattr(mod, "os", None) is os:
+                self.saved.append((mod, "os", os))
+                mod.os = self.os_proxy
         self.pl.BOOT_TIME = None
 
     def _fwd(self, name):
@@ -1012,6 +1246,7 @@ class SimImpl:
 
     def close(self):
         self.end_block()
+        self.getpid_value = os.getpid()
         for obj, n, v in reversed(self.saved):
             setattr(obj, n, v)
         self.fp.close()
@@ -1051,6 +1286,8 @@ class SimImpl:
             self.fp.write("0/status", b"\n".join(self.status_lines))
         self.end_block()
         self.objs = {}
+        self.create_self = world.get("create_self", world["self"])
+        self.getpid_value = self.create_self
         # a process that vanishes: the Process object is made while it exists, then the kernel forgets it (ESRCH)
         # and /proc/<pid> disappears
         for p in world["procs"]:
@@ -1065,7 +1302,9 @@ class SimImpl:
         """Everything that follows on `pid` happens inside ONE `with p.oneshot():` whose caches are warm."""
         self.end_block()
         if pid not in self.objs:
+            self.getpid_value = self.create_self
             self.objs[pid] = self.ps.Process(pid)
+        self.getpid_value = self.sim.self_pid
         cm = self.objs[pid].oneshot()
         cm.__enter__()
         self.block = (pid, cm)
@@ -1083,7 +1322,9 @@ class SimImpl:
         self.sim.log = []
         try:
             if pid not in self.objs:
+                self.getpid_value = self.create_self          # the process that makes the object …
                 self.objs[pid] = self.ps.Process(pid)
+            self.getpid_value = self.sim.self_pid             # … and the one that makes the call
             out = canon_ok(self.ps, req, call_in_mode(self.ps, self.objs[pid], req, mode))
         except BaseException as e:  # noqa: BLE001 — every exception is an observable
             if isinstance(e, (KeyboardInterrupt, SystemExit)):
@@ -1311,6 +1552,74 @@ def extension_histories(rng):
 
 
 
+# ---- who is calling (seeded round 5; Model/C18Who.lean) ----------------------------------------------------------
+#
+# Three processes and three moments: the process that IMPORTED psutil (in the simulated part: this harness process, so
+# its pid is os.getpid()), the process that CREATED the Process object, the process that makes the CALL — they differ
+# when the program forked in between. Any of the three processes of the world can play any of these roles, and any of
+# them can be the target. The property speaks about the target only.
+
+ROLES = ("T", "S", "SELF")
+
+
+def with_identity(world, ops, importer, caller, creator):
+    """`world`/`ops` (over T_PID, S_PID, SELF_PID) with: the process `importer` (a role or None = none of the three)
+    being the one that imported psutil — it gets the pid of this harness process —, `caller` making the calls and
+    `creator` having made the Process objects."""
+    me = os.getpid()
+    pid_of = {"T": T_PID, "S": S_PID, "SELF": SELF_PID}
+    assert me not in pid_of.values()
+    if importer is not None:
+        pid_of[importer] = me
+    ren = {T_PID: pid_of["T"], S_PID: pid_of["S"], SELF_PID: pid_of["SELF"], 0: 0}
+    w = dict(world, self=pid_of[caller], create_self=pid_of[creator], import_pid=me,
+             procs=[dict(p, pid=ren[p["pid"]]) for p in world["procs"]])
+    # the three processes must be told apart by every attribute
+    w["procs"][2] = dict(w["procs"][2], rlimits=[[2000 + 10 * r, 9000 + 10 * r] for r in range(16)])
+    return w, [dict(o, pid=ren[o["pid"]]) for o in ops]
+
+
+def identity_features(world):
+    me, caller, creator = world.get("import_pid"), world["self"], world.get("create_self", world["self"])
+    f = ["who:forked since import (caller is not the importing process)" if caller != me else "who:the importing process calls"]
+    f.append("who:object made by another process than the caller (it crossed a fork)" if creator != caller
+             else "who:object made by the caller")
+    return f
+
+
+def caller_histories(rng, n_random):
+    """Family `caller`: exhaustive part = every (importer, caller, creator) assignment x every get / set form on the
+    target T, followed by the get forms on all three processes; random part = random worlds, assignments, targets."""
+    T, S, ME = T_PID, S_PID, SELF_PID
+    sets = [[op(T, R_nice(5)), op(T, R_nice()), op(ME, R_nice()), op(S, R_nice())],
+            [op(T, R_ionice(2, 3)), op(T, R_ionice()), op(ME, R_ionice()), op(S, R_ionice())],
+            [op(T, R_aff([1])), op(T, R_aff()), op(ME, R_aff()), op(S, R_aff())],
+            [op(T, R_aff([])), op(T, R_aff()), op(ME, R_aff())],
+            [op(T, R_rl(7, (50, 5070))), op(T, R_rl(7)), op(ME, R_rl(7)), op(S, R_rl(7))],
+            [op(T, R_rl(3, (5, -1))), op(T, R_rl(3)), op(ME, R_rl(3))],
+            [op(T, R_nice()), op(T, R_ionice()), op(T, R_aff()), op(T, R_rl(7)), op(T, R_rl(0))],
+            # the listed invalid requests change nothing, whoever calls
+            [op(T, R_ionice(2, 8)), op(T, R_rl(7, (1,))), op(T, R_aff([9])), op(T, R_ionice(None, 2)), op(ME, R_ionice())]]
+    for importer in ROLES + (None,):
+        for caller in ROLES:
+            for creator in ROLES:
+                for ops in sets:
+                    w, o = with_identity(mk_world(ncpu=4, nice=4, ioprio=(2 << 13) | 6, affinity=[0, 1]), ops,
+                                         importer, caller, creator)
+                    h = with_modes(rng, {"world": w, "ops": o, "mode": "sim", "tag": "caller"}, p_block=0.1)
+                    if h.get("block") is not None:
+                        h["block"] = w["procs"][0]["pid"]
+                    yield h, True
+    for _ in range(n_random):
+        w0 = gen_world(rng)
+        ops = [op(rng.choice([T, T, T, S, ME]), gen_req(rng, w0)) for _ in range(rng.randrange(1, 7))]
+        w, o = with_identity(w0, ops, rng.choice(ROLES + (None,)), rng.choice(ROLES), rng.choice(ROLES))
+        h = with_modes(rng, {"world": w, "ops": o, "mode": "sim", "tag": "caller-random"}, p_block=0.15)
+        if h.get("block") is not None:
+            h["block"] = w["procs"][0]["pid"]
+        yield h, False
+
+
 def gen_world(rng):
     ncpu = rng.choice([1, 2, 3, 4, 6, 8])
     online = stat = None
@@ -1482,10 +1791,32 @@ def judge(ctx, res, hist, i, impl, m, live=False):
     return True
 
 
+def rebase_import_pid(h):
+    """A history of the family `caller` names the process that imported psutil by its pid — the pid of the harness
+    process that generated it. Replayed by another process, that role belongs to THIS process: rename the pid."""
+    old, new = h["world"].get("import_pid"), os.getpid()
+    if old is None or old == new:
+        return h
+    ren = lambda p: new if p == old else p  # noqa: E731
+    w = dict(h["world"])
+    w["import_pid"] = new
+    for key in ("self", "create_self"):
+        if key in w:
+            w[key] = ren(w[key])
+    for key in ("gone_pids", "zombie_pids"):
+        if key in w:
+            w[key] = [ren(p) for p in w[key]]
+    w["procs"] = [dict(p, pid=ren(p["pid"])) for p in w["procs"]]
+    h2 = dict(h, world=w, ops=[dict(o, pid=ren(o["pid"])) for o in h["ops"]])
+    if h.get("block") is not None:
+        h2["block"] = ren(h["block"])
+    return h2
+
+
 def driver_world(world):
     """The reset line: the kernel does not know the vanished processes."""
     gone = set(world.get("gone_pids", ()))
-    w = {k: v for k, v in world.items() if k not in ("gone_pids", "zombie_pids")}
+    w = {k: v for k, v in world.items() if k not in ("gone_pids", "zombie_pids", "create_self", "import_pid")}
     w["procs"] = [p for p in world["procs"] if p["pid"] not in gone]
     w["op"] = "reset"
     return w
@@ -1494,6 +1825,7 @@ def driver_world(world):
 def run_sim_histories(ctx, impl, hists):
     """hists: dicts {world, ops, mode:'sim', tag}. Returns rows per history: (impl, driver answer)."""
     lines = []
+    hists = [rebase_import_pid(h) for h in hists]
     for h in hists:
         lines.append(driver_world(h["world"]))
         view = None
@@ -1501,7 +1833,12 @@ def run_sim_histories(ctx, impl, hists):
             # the status file is cached when the block is entered: it keeps showing the mask of that moment
             view = [p for p in h["world"]["procs"] if p["pid"] == h["block"]][0]["affinity"]
         for o in h["ops"]:
-            ln = {"op": "call", "pid": o["pid"], "req": driver_req(o["req"])}
+            # who is calling: the module was imported by this harness process; the object is made by `create_self`
+            # (by the caller itself when process_iter() yields it during the call)
+            md = mode_for(o["req"], o.get("mode", "plain"))
+            ln = {"op": "call", "pid": o["pid"], "req": driver_req(o["req"]), "import_pid": os.getpid(),
+                  "create_pid": h["world"]["self"] if md in ("iter", "iter-info")
+                  else h["world"].get("create_self", h["world"]["self"])}
             if view is not None and o["pid"] == h["block"]:
                 ln["status_mask"] = list(view)
             lines.append(ln)
@@ -1585,6 +1922,16 @@ def check_sim(ctx, res, impl, hists):
                     break
             for f in feats:
                 res.count("feature:" + f)
+            if h["world"].get("import_pid") is not None:
+                for f in identity_features(h["world"]):
+                    res.count(f)
+                tp = set(o["pid"] for o in h["ops"] if not is_get(o["req"]))
+                if h["world"]["import_pid"] in tp:
+                    res.count("who:a set form targets the importing process")
+                if h["world"]["self"] in tp:
+                    res.count("who:a set form targets the caller itself")
+                if tp - {h["world"]["self"], h["world"]["import_pid"], 0}:
+                    res.count("who:a set form targets a third process")
             if h["world"].get("gone_pids"):
                 res.count("world:the target process has vanished (ESRCH, no /proc/<pid>)")
             if h["world"].get("zombie_pids"):
@@ -2235,6 +2582,164 @@ def live_shim(ctx, res, live, env, T, S):
     return done
 
 
+# ------------------------------------------------------------------------------ live: a forked caller
+#
+# Round 5 (seeded C18-5). A FRESH interpreter imports the snapshot's psutil (so whatever the module remembers from import
+# time belongs to that process), makes Process objects for itself and for a third process, then fork()s. The CHILD makes
+# the calls: on its parent (the importing process), on itself, on the third process; with objects made before the fork and
+# objects it makes itself. The harness (a fourth process) reads the kernel's state of all three back after every call.
+# Rendezvous over pipes, one call per "go" line: nothing depends on timing.
+
+FORK_SCRIPT = r"""
+import errno, json, os, sys
+import psutil
+other = int(sys.argv[1])
+def say(d):
+    sys.stdout.write(json.dumps(d) + "\n"); sys.stdout.flush()
+def poison():
+    try: os.stat("/nonexistent-psv-c18/x")
+    except OSError: pass
+def call(p, rq):
+    k = rq["kind"]
+    if k == "nice": return p.nice() if rq.get("value") is None else p.nice(rq["value"])
+    if k == "ionice": return p.ionice(rq.get("ioclass"), rq.get("value"))
+    if k == "cpu_affinity": return p.cpu_affinity() if rq.get("cpus") is None else p.cpu_affinity(list(rq["cpus"]))
+    if k == "rlimit": return p.rlimit(rq["res"]) if rq.get("limits") is None else p.rlimit(rq["res"], tuple(rq["limits"]))
+    raise ValueError(k)
+def canon(rq, f):
+    try:
+        poison()
+        r = f()
+        k = rq["kind"]
+        if r is None: return {"kind": "ok", "value": None}
+        if k == "nice" and type(r) is int: return {"kind": "ok", "value": r}
+        if k == "ionice" and type(r).__name__ == "pionice": return {"kind": "ok", "value": {"ioclass": int(r.ioclass), "data": int(r.value)}}
+        if k == "cpu_affinity" and type(r) is list: return {"kind": "ok", "value": [int(x) for x in r]}
+        if k == "rlimit" and type(r) is tuple and len(r) == 2: return {"kind": "ok", "value": [int(r[0]), int(r[1])]}
+        return {"kind": "ok", "value": {"unexpected": repr(r)}}
+    except BaseException as e:
+        d = {"kind": "exc", "exc": type(e).__name__}
+        if isinstance(e, psutil.Error): d["pid"] = getattr(e, "pid", None)
+        elif type(e) is OSError: d["errno"] = errno.errorcode.get(e.errno, str(e.errno))
+        return d
+me = os.getpid()
+pre = {"parent": psutil.Process(me), "other": psutil.Process(other)}
+say({"importer": me, "file": psutil.__file__})
+sys.stdin.readline()                       # the harness has read the importer's state
+pid = os.fork()
+if pid:
+    _, st = os.waitpid(pid, 0)
+    os._exit(0)
+try:
+    child = os.getpid()
+    say({"child": child})
+    pids = {"parent": me, "other": other, "child": child}
+    post = {}
+    while True:
+        line = sys.stdin.readline()
+        if not line.strip(): break
+        o = json.loads(line)
+        if o["object"] == "pre": p = pre[o["target"]]
+        else:
+            if o["target"] not in post: post[o["target"]] = psutil.Process(pids[o["target"]])
+            p = post[o["target"]]
+        say({"out": canon(o["req"], lambda: call(p, o["req"]))})
+finally:
+    os._exit(0)
+"""
+
+
+def live_fork(ctx, res, live, env, other):
+    import select
+    import shutil
+    import tempfile
+    tmp = tempfile.mkdtemp(prefix="psv-c18-fork-")
+    done = 0
+    pr = None
+
+    def read_line(timeout=20):
+        r, _, _ = select.select([pr.stdout], [], [], timeout)
+        if not r:
+            raise RuntimeError("the forked interpreter does not answer")
+        line = pr.stdout.readline()
+        if not line:
+            raise RuntimeError("the forked interpreter closed its pipe: %s" % pr.stderr.read()[-300:])
+        return json.loads(line)
+
+    try:
+        with open(os.path.join(tmp, "script.py"), "w") as f:
+            f.write(FORK_SCRIPT)
+        envp = dict(os.environ, PYTHONPATH=ctx.snap.dir)
+        pr = subprocess.Popen([sys.executable, os.path.join(tmp, "script.py"), str(other)], stdin=subprocess.PIPE,
+                              stdout=subprocess.PIPE, stderr=subprocess.PIPE, text=True, env=envp, cwd=tmp, bufsize=1)
+        hello = read_line(60)
+        if not os.path.abspath(hello["file"]).startswith(os.path.abspath(ctx.snap.dir)):
+            raise RuntimeError("forked interpreter imported psutil from %s" % hello["file"])
+        A = hello["importer"]
+        pr.stdin.write("fork\n")
+        pr.stdin.flush()
+        B = read_line()["child"]
+        E = env["eligible"]
+        pids = {"parent": A, "child": B, "other": other}
+        st0 = [live.os_state(A, E), live.os_state(B, E), live.os_state(other, E)]
+        by = {"parent": st0[0], "child": st0[1], "other": st0[2]}
+        plan = []
+        k = 0
+        for tgt in ("parent", "other", "child", "parent"):
+            st = by[tgt]
+            objs = ("post",) if tgt == "child" else (("pre", "post") if k % 2 == 0 else ("post", "pre"))
+            k += 1
+            s7, h7 = st["rlimits"][7]
+            s4, h4 = st["rlimits"][4]
+            pyv = lambda v: -1 if v == INF else v  # noqa: E731
+            reqs = [R_rl(7), R_rl(7, (max(0, min(s7, h7, 2**40) - 7 - 3 * k), pyv(h7))), R_rl(7),
+                    R_rl(4, (min(s4, k), pyv(h4))), R_rl(4),
+                    R_nice(), R_nice(min(19, st["nice"] + k)), R_nice(),
+                    R_ionice(), R_ionice(2, (k + 3) % 8), R_ionice(), R_ionice(3), R_ionice(),
+                    R_aff(), R_aff(E[k % len(E):][:1]), R_aff(), R_aff([]), R_aff(),
+                    R_ionice(2, 8), R_rl(7, (1,)), R_aff([env["ncpu"] + 5])]
+            for j, rq in enumerate(reqs):
+                plan.append({"target": tgt, "object": objs[j % len(objs)], "req": rq})
+        world = {"self": B, "ncpu": env["ncpu"], "nr_open": env["nr_open"], "cap": env["cap"], "procs": st0}
+        ops = [dict(op(pids[o["target"]], o["req"]), target=o["target"],
+                    object="made before the fork by the importing process" if o["object"] == "pre" else "made by the caller")
+               for o in plan]
+        hist = {"world": dict(world, import_pid=A, forked_child_of=A), "ops": ops, "mode": "live", "tag": "live-fork"}
+        lines = [dict(world, op="reset")]
+        for o in plan:
+            lines.append({"op": "call", "pid": pids[o["target"]], "req": driver_req(o["req"]), "errno": POISON_ERRNO,
+                          "import_pid": A, "create_pid": A if o["object"] == "pre" else B})
+        outs = ctx.driver().batch(lines)[1:]
+        for i, (o, m) in enumerate(zip(plan, outs)):
+            if "bad" in m:
+                raise RuntimeError("driver rejected %r: %s" % (o, m))
+            pr.stdin.write(json.dumps(o) + "\n")
+            pr.stdin.flush()
+            out = read_line()["out"]
+            im = {"out": out, "procs": [live.os_state(A, E), live.os_state(B, E), live.os_state(other, E)]}
+            res.count("family:live-fork")
+            res.count("live:fork:target=%s,object %s" % (o["target"], "made before the fork" if o["object"] == "pre" else "made by the child"))
+            res.count("live:" + o["req"]["kind"])
+            res.case(("live-fork", i, o["target"], o["object"], json.dumps(o["req"], sort_keys=True)), nontrivial=not is_get(o["req"]))
+            done += 1
+            if not judge(ctx, res, hist, i, im, m, live=True):
+                break
+    except (RuntimeError, OSError, ValueError, KeyError) as e:
+        res.notes.append("live-fork incomplete after %d calls: %s: %s" % (done, type(e).__name__, e))
+    finally:
+        if pr is not None:
+            try:
+                pr.stdin.close()
+            except Exception:  # noqa: BLE001
+                pass
+            try:
+                pr.wait(timeout=10)
+            except Exception:  # noqa: BLE001
+                pr.kill()
+        shutil.rmtree(tmp, ignore_errors=True)
+    return done
+
+
 def check_live(ctx, res):
     live = Live(ctx)
     if not live.ok:
@@ -2280,6 +2785,8 @@ def check_live(ctx, res):
             U = live.spawn()
             done += live_unpriv(ctx, res, live, env, U)
             done += live_shim(ctx, res, live, env, U, S)
+            # round 5: a forked caller (psutil imported before the fork) acting on its parent, itself, a third process
+            done += live_fork(ctx, res, live, env, live.spawn())
         if ok and len(env["eligible"]) >= 3 and env["eligible"][-1] == env["ncpu"] - 1:
             # the same child seen through a procfs whose /proc/stat lacks the cpuN line of a CPU that is not the last
             # one (seeded C18-2): len(per_cpu_times()) = ncpu - 1 while CPU ids go up to ncpu - 1
@@ -2353,6 +2860,10 @@ def correspond(ctx, res):
         for h in extension_histories(ctx.rng):
             hists.append(h)
             n_ext += 1
+        n_caller = 0
+        for h, exh in caller_histories(ctx.rng, ctx.n(400, 8000)):
+            hists.append(h)
+            n_caller += exh
         for _ in range(ctx.n(1500, 40000)):
             w, o = gen_history(ctx.rng)
             hists.append(with_modes(ctx.rng, {"world": w, "ops": o, "mode": "sim", "tag": "random"}, p_block=0.25))
@@ -2370,7 +2881,12 @@ def correspond(ctx, res):
                           "value form (int, bool, enum) x (positional, keyword) x 2 states; nice/rlimit/cpu_affinity in every "
                           "argument form (7 resource forms x 13 limit shapes x tuple/list/iterator x kw; 14 CPU lists x "
                           "list/tuple/set/range/iterator x 3 worlds x kw); 23 requests on a vanished process x 4 modes; 15 requests "
-                          "on a zombie x 7 modes + block" % (n_ex, n_modes, n_ext))
+                          "on a zombie x 7 modes + block. Round 5 (who is calling): %d histories enumerate every assignment of "
+                          "the roles importing process (pid remembered at import) / creator of the Process object / caller to "
+                          "the three processes of the world (4 x 3 x 3, incl. 'the importer is none of them') x 8 request groups "
+                          "(each set form, cpu_affinity([]), the get forms, the listed invalid requests) on the target, followed "
+                          "by the get forms on the target, the caller and the third process"
+                          % (n_ex, n_modes, n_ext, n_caller))
         res.extra["driver_lines"] = total
     finally:
         impl.close()
